@@ -20,6 +20,7 @@ import (
 	"strings"
 	"sync"
 	"sync/atomic"
+	"time"
 
 	"github.com/lixianmin/got/aesx"
 )
@@ -283,6 +284,50 @@ func init() {
 		conc := "ok"
 		if bad != 0 {
 			conc = fmt.Sprintf("mismatch:%d", bad)
+		}
+		// the shared object after ONE caller handed it an input outside the property (a ciphertext that is not a whole number
+		// of blocks; the call may panic -- recovered -- or return anything): the other callers' valid calls still return, with
+		// the same answers
+		if len(pts) > 0 {
+			func() {
+				defer func() { _ = recover() }()
+				c.Decrypt(make([]byte, 15))
+			}()
+			var bad2 int64
+			fin := make(chan struct{})
+			go func() {
+				var w2 sync.WaitGroup
+				for g := 0; g < 4; g++ {
+					w2.Add(1)
+					go func(g int) {
+						defer w2.Done()
+						defer func() {
+							if r := recover(); r != nil {
+								atomic.AddInt64(&bad2, 1)
+							}
+						}()
+						for k := range pts {
+							i := (k + g) % len(pts)
+							ct := c.Encrypt(pts[i])
+							if !bytes.Equal(ct, cts[i]) || !bytes.Equal(c.Decrypt(ct), pts[i]) {
+								atomic.AddInt64(&bad2, 1)
+							}
+						}
+					}(g)
+				}
+				w2.Wait()
+				close(fin)
+			}()
+			select {
+			case <-fin:
+				if conc == "ok" && bad2 != 0 {
+					conc = fmt.Sprintf("mismatch-after-rejected-call:%d", bad2)
+				}
+			case <-time.After(20 * time.Second):
+				if conc == "ok" {
+					conc = "hang-after-rejected-call"
+				}
+			}
 		}
 		return fmt.Sprintf("new=ok seq=%s dec=%s conc=%s ref=%s", strings.Join(seq, ","), decok, conc, strings.Join(refs, ","))
 	})
